@@ -297,9 +297,9 @@ def observable {D : Type} (c : Codec D) (s : Sol D) : List Event :=
   [.objno false (encInt (s.objno - 1)) (32 :: encInt s.status)] ++
   s.sufs.flatMap (obsSuf c)
 
-theorem body_written {D : Type} (fx : Bool) (c : Codec D) (s : Sol D) (nv nc : Nat) (w : Wf c s nv nc)
+theorem body_written {D : Type} (fx fm : Bool) (c : Codec D) (s : Sol D) (nv nc : Nat) (w : Wf c s nv nc)
     (o0 o1 o2 : Int) (os : List Int) (ho : s.options = o0 :: o1 :: o2 :: os) :
-    body fx nv nc readAll false
+    body fx fm nv nc readAll false
       (some ⟨optInts s.options s.ncons s.duals.length s.nvars s.primals.length, 3 + os.length, false, []⟩) (afterOpts c s) =
     ⟨.ok, [.options (optInts s.options s.ncons s.duals.length s.nvars s.primals.length) false []] ++
       (vecEvs c (.dual false) s.duals ++ vecEvs c (.primal false) s.primals) ++
@@ -358,8 +358,8 @@ theorem cstr_clean (l : Bytes) (h0 : ∀ c ∈ l, c ≠ 0) : cstr l = l := by
   simpa using this
 
 /-- **Round trip** (model level): what `readSol` makes of what `writeSol` wrote -/
-theorem roundtrip {D : Type} (fx : Bool) (c : Codec D) (s : Sol D) (nv nc : Nat) (w : Wf c s nv nc) :
-    readSol fx nv nc readAll (writeSol c s) = ⟨.ok, observable c s, false⟩ := by
+theorem roundtrip {D : Type} (fx fm : Bool) (c : Codec D) (s : Sol D) (nv nc : Nat) (w : Wf c s nv nc) :
+    readSol fx fm nv nc readAll (writeSol c s) = ⟨.ok, observable c s, false⟩ := by
   obtain ⟨o0, o1, o2, os, ho, hos, h3⟩ := w.opts
   have hne : s.options ≠ [] := by rw [ho]; simp
   have hmc := writeMessage_clean s.msg w.msg
@@ -397,7 +397,7 @@ theorem roundtrip {D : Type} (fx : Bool) (c : Codec D) (s : Sol D) (nv nc : Nat)
     rw [← ho] at hopt
     rw [← hR, hopt]
     simp only
-    rw [body_written fx c s nv nc w o0 o1 o2 os ho]
+    rw [body_written fx fm c s nv nc w o0 o1 o2 os ho]
     unfold msgEvent observable
     simp only [ne_eq, not_true_eq_false, if_false, Bool.false_eq_true]
     rw [cstr_clean _ (msgRead_clean s.msg w.msg)]
